@@ -648,6 +648,7 @@ func TestVF(t *testing.T) {
 		}
 		env.n, env.shard, env.from = 1, 0, 0
 	} else {
+		vfCurrentProp = env.prop
 		specs = p.list(env.tier, env.seed, env.race)
 	}
 
